@@ -3,6 +3,7 @@ import json
 import os
 import c11_rules
 import validators
+import reader_extra
 from vlib.core import VERIF
 
 
@@ -24,6 +25,14 @@ def run(facts, tier):
     obs += o
     rules.append({"rule": "a3 validators", "instances": len(o), "min": 160,
                   "text": "every reader keeps the validations of image fields (check_* calls and inline throw guards) it performs on the reviewed tree"})
+    o = reader_extra.registration_order(facts)
+    obs += o
+    rules.append({"rule": "reader.registration", "instances": len(o), "min": 16,
+                  "text": "items a serde call constructs into a raw buffer are registered with the owner's deleter (or repackaged / destroyed in place) before any later input-dependent rejection can throw"})
+    o = reader_extra.serde_string_guard(facts)
+    obs += o
+    rules.append({"rule": "reader.serde-string", "instances": len(o), "min": 2,
+                  "text": "serde<std::string>::deserialize(bytes): each read through the cursor is preceded in its iteration by the capacity test for exactly that many bytes"})
     return {
         "level": "other",
         "rules": rules,
